@@ -2,3 +2,5 @@ import TTModel.Basic
 import TTModel.Algebra
 import TTModel.Reduce
 import TTModel.Extras
+import TTModel.Scalar
+import TTModel.Trunc
